@@ -395,7 +395,9 @@ impl Doc {
 
     #[cfg(feature = "autocomplete")]
     pub(crate) fn to_completion(&self) -> Option<String> {
-        let mut s = self.first_line()?.monochrome(false);
+        // a completion description is a single line: render it without wrapping
+        let line = self.first_line()?;
+        let mut s = line.render_console(false, console::Color::Monochrome, usize::MAX / 2);
         s.truncate(s.trim_end().len());
         Some(s)
     }
